@@ -34,7 +34,7 @@ struct Case {
   std::vector<std::string> S;
   GenInfo gi;
   std::vector<uint8_t> opbytes;
-  size_t cap = 600;  // members / ids examined per sweep
+  size_t cap = 300;  // members / ids examined per sweep
 };
 
 // functional events of C01-C05/C13/C15 raised while another property's check runs a sweep
@@ -75,6 +75,7 @@ static bool lib(const std::function<void()> &f) {
   }
   if (!ok) {
     obj_dead = true;
+    if (cur->slow) { cur->slow = false; return false; }
     if (const char *o = op_owner(cur->op)) ev(o, "crash", "fatal signal inside " + cur->op);
     return false;
   }
@@ -365,12 +366,42 @@ static void sweep_c03(Obj &o, const Case &c, XorShift &x) {
   if (answered) cur->labels.insert("rank_answered");
 }
 
+// XBW answers prefix / substring queries by walking, for every matching trie node, its whole subtree
+// with a quadratic queue.  Performance is no part of any property, so patterns whose enumeration would
+// take seconds to minutes on this kind are left out (and counted).
+static bool xbw_too_costly(const Obj &o, const Case &c, const std::string &p, bool substr) {
+  if (o.kind != K_XBW) return false;
+  double cost = 0;
+  for (auto &s : c.S) {
+    if (s.size() < p.size()) continue;
+    if (substr) {
+      const char *b = s.data();
+      size_t off = 0;
+      while (true) {
+        const char *f = (const char *)memmem(b + off, s.size() - off, p.data(), p.size());
+        if (!f) break;
+        off = (f - b) + 1;
+        cost += (double)(s.size() - off + 1);
+        if (off >= s.size()) break;
+      }
+    } else if (memcmp(s.data(), p.data(), p.size()) == 0) cost += (double)s.size();
+  }
+  bool costly = substr ? cost > 20000 : cost > 6000;
+  if (costly) cur->counters["xbw_patterns_skipped_for_cost"]++;
+  return costly;
+}
+
 struct PrefQ { std::string p; const char *cls; };
 static std::vector<PrefQ> prefix_patterns(const Case &c, XorShift &x, size_t want) {
   const auto &S = c.S;
   size_t n = S.size();
   std::vector<PrefQ> out;
+  // XBW enumerates matches with a quadratic queue (see substr_patterns): few patterns on big sets
+  size_t minlen = 1;
+  if (c.p.kind == K_XBW && c.gi.total > 1500) want = std::min<size_t>(want, 12);
+  if (c.p.kind == K_XBW && c.gi.total > 12000) { want = 4; minlen = 5; }
   auto add = [&](const std::string &q, const char *cls) {
+    if (q.size() < minlen) return;
     if (q.empty()) return;
     for (unsigned char ch : q) if (ch < 2 || ch > 254) return;
     out.push_back({q, cls});
@@ -404,6 +435,7 @@ static void sweep_c04(Obj &o, const Case &c, XorShift &x) {
   auto ps = prefix_patterns(c, x, n <= 8 ? 45 : 120);
   bool multi = false, empty = false;
   for (auto &q : ps) {
+    if (xbw_too_costly(o, c, q.p, false)) continue;
     size_t lo, hi;
     model_prefix(S, q.p, lo, hi);
     size_t cnt = hi - lo;
@@ -474,7 +506,14 @@ static std::vector<SubQ> substr_patterns(const Case &c, XorShift &x, size_t want
   const auto &S = c.S;
   size_t n = S.size();
   std::vector<SubQ> out;
+  // XBW enumerates a substring match by walking the subtree of every matching trie node with a
+  // quadratic queue: minutes for short patterns on KB-sized sets.  Performance is not part of any
+  // property, so big XBW cases get few patterns of >=4 bytes.
+  size_t minlen = 1;
+  if (c.p.kind == K_XBW && c.gi.total > 1500) { minlen = 4; want = std::min<size_t>(want, 8); }
+  if (c.p.kind == K_XBW && c.gi.total > 12000) { minlen = 6; want = 3; }
   auto add = [&](const std::string &q, const char *cls) {
+    if (q.size() < minlen) return;
     if (q.empty()) return;
     for (unsigned char ch : q) if (ch < 2 || ch > 254) return;
     out.push_back({q, cls});
@@ -505,6 +544,7 @@ static void sweep_c05(Obj &o, const Case &c, XorShift &x) {
   auto ps = substr_patterns(c, x, n <= 8 ? 40 : 96);
   bool rep = false, absent = false;
   for (auto &q : ps) {
+    if (xbw_too_costly(o, c, q.p, true)) continue;
     auto exp = model_substr(S, q.p);
     if (exp.empty()) { absent = true; cur->labels.insert("substr:absent"); }
     else {
@@ -527,7 +567,12 @@ static void sweep_c05(Obj &o, const Case &c, XorShift &x) {
         if (is_ordered(o.kind)) {
           std::set<size_t> e;
           for (size_t i : exp) e.insert(i + 1);
-          if (ids != e) ev("C05", "id-set", "locateSubstr" + ctx + ": got " + std::to_string(ids.size()) + " distinct IDs");
+          if (ids != e) {
+            std::string got;
+            int shown = 0;
+            for (size_t id : r.ids) { if (shown++ >= 12) break; got += std::to_string(id) + " "; }
+            ev("C05", "id-set", "locateSubstr" + ctx + ": got " + std::to_string(ids.size()) + " distinct IDs: " + got);
+          }
         } else if (ids.size() != exp.size()) ev("C05", "id-count", "locateSubstr" + ctx + ": " + std::to_string(ids.size()) + " distinct IDs");
         else if (!skip("extract")) {
           std::set<size_t> mem;
@@ -591,8 +636,9 @@ static void sweep_c13(Obj &o, const Case &c, XorShift &x) {
     auto ps = prefix_patterns(c, x, 36);
     // members themselves as patterns: the scan starts at the member's in-bucket offset
     std::set<uint32_t> offs;
-    for (size_t k = 0; k < n && k < 70; k++) ps.push_back({S[(k * 7 + x.below(3)) % n].substr(0, std::max<size_t>(1, S[(k * 7) % n].size() / 2)), "half_member"});
+    for (size_t k = 0; k < n && k < (o.kind == K_XBW && c.gi.total > 1500 ? (c.gi.total > 12000 ? 0u : 6u) : 70u); k++) ps.push_back({S[(k * 7 + x.below(3)) % n].substr(0, std::max<size_t>(1, S[(k * 7) % n].size() / 2)), "half_member"});
     for (auto &q : ps) {
+      if (xbw_too_costly(o, c, q.p, false)) continue;
       size_t lo, hi;
       model_prefix(S, q.p, lo, hi);
       size_t cnt = hi - lo;
@@ -618,6 +664,7 @@ static void sweep_c13(Obj &o, const Case &c, XorShift &x) {
   if (has_substr(o, c)) {
     auto ps = substr_patterns(c, x, 24);
     for (auto &q : ps) {
+      if (xbw_too_costly(o, c, q.p, true)) continue;
       if (!skip("extract_substr")) {
         StrsR r = op_extract_strs(o, q.p, 1, "extract_substr");
         if (!r.nullit) {
@@ -781,7 +828,7 @@ static void decode_case(Src &s, Case &c) {
   bool memalloc = cfg.prop == "C07";
   gen_params(s, c.p, c.S.size(), c.gi.total, clamp, memalloc);
   while (!s.exhausted()) c.opbytes.push_back(s.byte());
-  if (cfg.thorough) c.cap = 2000;
+  if (cfg.thorough) c.cap = 1500;
 }
 
 static void case_features(const Case &c) {
@@ -790,6 +837,7 @@ static void case_features(const Case &c) {
   if (n == 1) f.insert("n1");
   if (n == 2) f.insert("n2");
   if (n <= 2) f.insert("n_le2");
+  if (c.gi.total <= 600) f.insert("tiny_text");
   if (c.gi.family == 9) f.insert("textlike");
   if (c.gi.family == 9 && n >= 65) f.insert("textlike_n65");
   if (c.gi.maxlen >= 128) f.insert("maxlen_ge128");
